@@ -269,5 +269,88 @@ theorem goodAcc_repaired (fl : CompactFlags) (hm : fl.mergeInsteadOfLatest = tru
     rw [keptOf_noGC hgc, h1, h2, hm, foldl_keepStep_merge, hst1]
     simp [LoadAcc.init, foldState]
 
+/-! ### fault-free runs of the code that exists -/
+
+/-- the oracle without faults -/
+def allOk : Oracle := fun _ => .ok
+
+theorem get_allOk {w : World} (hd : w.dead = false) {n : Nat} {o : Obj}
+    (h : NMap.get w.store n = some o) : w.get allOk n = (w.tick, .ok o) := by
+  unfold World.get
+  simp [hd, allOk, h]
+
+theorem get_allOk_none {w : World} (hd : w.dead = false) {n : Nat}
+    (h : NMap.get w.store n = none) : w.get allOk n = (w.tick, .err true) := by
+  unfold World.get
+  simp [hd, allOk, h]
+
+theorem loadOrCreate_allOk {w : World} (hd : w.dead = false) (hinv : StoreInv w.store) :
+    loadOrCreate allOk w 0 = (w.tick, some (manifestOf w.store 0)) := by
+  unfold loadOrCreate manifestOf
+  rcases hinv with h | ⟨m, h, _⟩
+  · rw [get_allOk_none hd h, h]
+  · rw [get_allOk hd h, h]
+
+/-- the selected segments' deltas, in the order the compactor reads them -/
+def selDeltas (st : Store) (cfg : CompactCfg) : List Delta :=
+  segDeltas st (selectSegments cfg (manifestOf st 0))
+
+theorem loadLoop_allOk (fl : CompactFlags) (w : World) (hd : w.dead = false) (acc : LoadAcc)
+    (hf : acc.failed = false) (l : List SegInfo)
+    (hl : ∀ s ∈ l, ∃ ds, NMap.get w.store (segName s.id) = some (.segment ds)) :
+    (loadLoop fl allOk w acc l).2.actually = acc.actually ++ l ∧
+    (loadLoop fl allOk w acc l).2.ktd = (segDeltas w.store l).foldl (keepStep fl.mergeInsteadOfLatest) acc.ktd := by
+  induction l generalizing w acc with
+  | nil => exact ⟨by simp [loadLoop], by simp [loadLoop, segDeltas]⟩
+  | cons s rest ih =>
+    obtain ⟨ds0, hds0⟩ := hl s (by simp)
+    unfold loadLoop
+    rw [get_allOk hd hds0]
+    simp only [hf, Bool.false_eq_true, if_false]
+    have hl' : ∀ t ∈ rest, ∃ ds, NMap.get w.tick.store (segName t.id) = some (.segment ds) :=
+      fun t ht => hl t (by simp [ht])
+    obtain ⟨h1, h2⟩ := ih w.tick (by simpa [World.tick] using hd)
+      { ktd := ds0.foldl (keepStep fl.mergeInsteadOfLatest) acc.ktd, before := acc.before + ds0.length,
+        actually := acc.actually ++ [s], missing := acc.missing, failed := false } rfl hl'
+    refine ⟨by rw [h1]; simp, ?_⟩
+    rw [h2]
+    simp only [segDeltas, List.flatMap_cons, hds0, List.foldl_append, World.tick]
+
+/-- decidable: on the deltas this compaction selects, keeping the latest by outer time gives
+    the same per-key survivors as merging them -/
+def KeepLatestAgreesWithMerge (st : Store) (cfg : CompactCfg) : Prop :=
+  (selDeltas st cfg).foldl (keepStep false) [] = foldState (selDeltas st cfg)
+
+instance (st : Store) (cfg : CompactCfg) : Decidable (KeepLatestAgreesWithMerge st cfg) := by
+  unfold KeepLatestAgreesWithMerge; infer_instance
+
+/-- decidable: no tombstone among the survivors is below the cutoff -/
+def NoTombstoneDropped (st : Store) (cfg : CompactCfg) : Prop :=
+  keptOf cfg (foldState (selDeltas st cfg)) = foldState (selDeltas st cfg)
+
+instance (st : Store) (cfg : CompactCfg) : Decidable (NoTombstoneDropped st cfg) := by
+  unfold NoTombstoneDropped; infer_instance
+
+theorem goodAcc_pinned (cfg : CompactCfg) (w : World) (hd : w.dead = false) (hinv : StoreInv w.store)
+    (hk : KeepLatestAgreesWithMerge w.store cfg) (hn : NoTombstoneDropped w.store cfg) :
+    ∀ w1 m, loadOrCreate allOk w 0 = (w1, some m) →
+      (loadLoop pinnedFlags allOk w1 LoadAcc.init (selectSegments cfg m)).2.failed = false →
+      GoodAcc w.store cfg (loadLoop pinnedFlags allOk w1 LoadAcc.init (selectSegments cfg m)).2 := by
+  intro w1 m hl _
+  rw [loadOrCreate_allOk hd hinv] at hl
+  cases hl
+  have hback : Backed w.store (manifestOf w.store 0) :=
+    backed_of_load hinv (loadOrCreate_allOk hd hinv)
+  have hsel : ∀ s ∈ selectSegments cfg (manifestOf w.store 0),
+      ∃ ds, NMap.get w.tick.store (segName s.id) = some (.segment ds) :=
+    fun s hs => (hback.1 s (mem_selectSegments hs)).2
+  obtain ⟨h1, h2⟩ := loadLoop_allOk pinnedFlags w.tick (by simpa [World.tick] using hd) LoadAcc.init rfl _ hsel
+  unfold GoodAcc
+  rw [h1, h2]
+  simp only [LoadAcc.init, List.nil_append, pinnedFlags, World.tick]
+  unfold KeepLatestAgreesWithMerge selDeltas at hk
+  unfold NoTombstoneDropped selDeltas at hn
+  rw [hk, hn]
+
 end Stream
 end RedisVerif
